@@ -4,6 +4,7 @@ import Driver.Vdb
 import Driver.Ledger
 import Driver.Spork
 import Driver.Pool
+import Driver.PoolMulti
 import Driver.Rewards
 import Driver.Consensus
 import Driver.Codec
@@ -58,7 +59,8 @@ def registry : List Obj := [
   mkObj ([] : NcAll) ncStep,
   pureObj pureConsStore,
   mkObj ({} : CsDbSt) csDbStep,
-  mkObj ([] : DlBuf) dlStep
+  mkObj ([] : DlBuf) dlStep,
+  mkObj ({} : PmSt) pmStep
 ]
 
 end ZV.Driver
